@@ -447,6 +447,7 @@ def attack_undescribed_module(ctx, case, kit, conn, mname, cs, rec):
 
 def units_case(ctx):
     from frappy.core import Writable, Parameter
+    from frappy.params import Limit
     from frappy.datatypes import FloatRange, StructOf, ArrayOf, TupleOf, ScaledInteger
 
     class U(Writable):
@@ -456,6 +457,8 @@ def units_case(ctx):
         st = Parameter('struct', StructOf(a=FloatRange(unit='$'), b=ScaledInteger(0.1, 0, 5, unit='m$')), default={'a': 0, 'b': 0})
         arr = Parameter('arr', ArrayOf(TupleOf(FloatRange(unit='1/$'), FloatRange(unit='s')), 0, 3), default=[])
         hid = Parameter('hidden', FloatRange(), default=0, export=False, readonly=False)
+        target_max = Limit()        # limit parameters take over the datatype (and the unit) of their base parameter
+        ramp_limits = Limit()
 
         def write_target(self, v):
             return v
@@ -474,8 +477,11 @@ def units_case(ctx):
         units = {'value': acc['value']['datainfo'].get('unit'), 'target': acc['target']['datainfo'].get('unit'),
                  'ramp': acc['ramp']['datainfo'].get('unit'), 'st.a': acc['_st']['datainfo']['members']['a'].get('unit'),
                  'st.b': acc['_st']['datainfo']['members']['b'].get('unit'),
-                 'arr': acc['_arr']['datainfo']['members']['members'][0].get('unit')}
-        exp = {'value': want, 'target': want, 'ramp': f'{want}/min', 'st.a': want, 'st.b': f'm{want}', 'arr': f'1/{want}'}
+                 'arr': acc['_arr']['datainfo']['members']['members'][0].get('unit'),
+                 'target_max': acc.get('target_max', {}).get('datainfo', {}).get('unit'),
+                 'ramp_limits': (acc.get('ramp_limits', acc.get('_ramp_limits', {})).get('datainfo', {}).get('members') or [{}])[0].get('unit')}
+        exp = {'value': want, 'target': want, 'ramp': f'{want}/min', 'st.a': want, 'st.b': f'm{want}', 'arr': f'1/{want}',
+               'target_max': want, 'ramp_limits': f'{want}/min'}
         ctx.nt(('units', cfgunit))
         if units != exp or '$' in text.replace('$/', '$/') and '"unit": "' in text and any('$' in str(u) for u in units.values()):
             ctx.finding('units:dollar-not-replaced', case, f'{units!r} vs {exp!r}')
